@@ -321,6 +321,7 @@ func checkC06(c *Check) {
 	}
 	// the identifiers of a login leave in a response object that no other check can reach
 	responseFreshPerCheck(c, "C06.R3", R)
+	csprngBufferNotOverwritten(c, "C06.R1")
 	headersOwnBacking(c, "C06.R3", R)
 	if c.Tier == "thorough" && P.Whole {
 		// follow oauth2.GenerateVerifier into the dependency
@@ -473,4 +474,95 @@ func uniq(s []string) []string {
 		}
 	}
 	return out
+}
+
+// csprngBufferNotOverwritten: the bytes an identifier is made of are the bytes crypto/rand.Read put into the
+// buffer. After the fill the buffer is only read — indexed, sliced, ranged over, handed to an encoder or a
+// conversion; a store into one of its elements, or a call that receives the buffer and is not a known
+// reader (an own helper is looked into), can replace the random bytes by something predictable while the
+// data dependence on the CSPRNG that C06.R1 checks stays intact.
+func csprngBufferNotOverwritten(c *Check, rule string) {
+	P := c.P
+	readers := map[string]bool{
+		"encoding/base64.Encoding.EncodeToString": true, "encoding/base64.Encoding.Encode": true, "encoding/base64.Encoding.EncodedLen": true,
+		"encoding/hex.EncodeToString": true, "encoding/hex.Encode": true, "encoding/binary.bigEndian.Uint64": true, "encoding/binary.littleEndian.Uint64": true,
+		"encoding/binary.bigEndian.Uint32": true, "encoding/binary.littleEndian.Uint32": true, "bytes.Equal": true, "fmt.Sprintf": true,
+	}
+	var writesInto func(fn *ssa.Function, buf ssa.Value, fill ssa.Instruction, depth int) string
+	writesInto = func(fn *ssa.Function, buf ssa.Value, fill ssa.Instruction, depth int) string {
+		seen := map[ssa.Value]bool{}
+		var walk func(v ssa.Value) string
+		walk = func(v ssa.Value) string {
+			if seen[v] || v.Referrers() == nil {
+				return ""
+			}
+			seen[v] = true
+			for _, r := range *v.Referrers() {
+				switch x := r.(type) {
+				case *ssa.IndexAddr:
+					for _, st := range storesTo(x) {
+						return "an element of the buffer is assigned at " + posOf(P, st)
+					}
+				case *ssa.Slice:
+					if w := walk(x); w != "" {
+						return w
+					}
+				case *ssa.Phi:
+					if w := walk(x); w != "" {
+						return w
+					}
+				case ssa.CallInstruction:
+					if x == fill {
+						continue
+					}
+					if bi, isB := x.Common().Value.(*ssa.Builtin); isB {
+						if bi.Name() == "copy" && len(x.Common().Args) > 0 && x.Common().Args[0] == v {
+							return "copy() overwrites the buffer at " + posOf(P, x)
+						}
+						continue
+					}
+					id := funcID(calleeOf(x).Obj)
+					if readers[id] || isCallTo(x, "crypto/rand.Read") {
+						continue
+					}
+					callee := x.Common().StaticCallee()
+					if callee != nil && callee.Blocks != nil && isOwnPath(pkgPathOf(callee)) && depth > 0 {
+						for i, a := range x.Common().Args {
+							if a == v && i < len(callee.Params) {
+								if w := writesInto(callee, callee.Params[i], nil, depth-1); w != "" {
+									return fnKey(callee) + ": " + w
+								}
+							}
+						}
+						continue
+					}
+					return "the buffer is handed to " + shortID(id) + " at " + posOf(P, x) + ", which is not a known reader"
+				}
+			}
+			return ""
+		}
+		return walk(buf)
+	}
+	n := 0
+	for _, fn := range P.Funcs {
+		if !isOwnPath(pkgPathOf(fn)) {
+			continue
+		}
+		for _, ci := range allCalls(fn) {
+			if !isCallTo(ci, "crypto/rand.Read") || len(ci.Common().Args) == 0 {
+				continue
+			}
+			n++
+			buf := ci.Common().Args[0]
+			why := writesInto(fn, buf, ci, 2)
+			if why == "" {
+				if sl, isS := buf.(*ssa.Slice); isS {
+					why = writesInto(fn, sl.X, ci, 2)
+				}
+			}
+			c.Obl(why == "", rule, "csprng-buffer-read-only/"+fnKey(fn), P.Pos(ci.Pos()), "the buffer filled by crypto/rand.Read is only read afterwards",
+				"the buffer filled by crypto/rand.Read can be overwritten before it is turned into an identifier: "+why)
+		}
+	}
+	c.Obl(n >= 1, rule, "csprng-fill-sites", "-", fmt.Sprintf("%d crypto/rand.Read site(s) in own code", n), "no crypto/rand.Read call found in own code (anchor lost)")
 }
